@@ -11,8 +11,27 @@ import numpy as np
 from .sigfile import random_samples, write_set
 
 
+def main_mjd(p):
+    from sigpyproc.header import Header
+    bad = []
+    with tempfile.TemporaryDirectory() as d:
+        for tsamp, tstart in ((0.001, 50000.0), (6.4e-5, 58123.456789), (1.0, 58000.5)):
+            hdr = Header.from_sigproc(write_set(d, np.zeros((4, 2), np.uint8), 8, [4], tsamp=tsamp, tstart=tstart))
+            for n in (0, 1, 7, 1000, 123456, 86400000):
+                got = hdr.mjd_after_nsamps(n)
+                want = tstart + n * tsamp / 86400.0     # epochs chosen after the last leap second (2017-01-01): UTC days are 86400 s
+                if abs(got - want) * 86400.0 > 5e-6 + 1e-11 * abs(want) * 86400.0:
+                    bad.append(f"mjd_after_nsamps({n}) with tstart={tstart}, tsamp={tsamp} = {got!r}, expected {want!r}")
+    print("params:", json.dumps(p))
+    for b in bad[:3]:
+        print("MISMATCH:", b)
+    return 1 if bad else 0
+
+
 def main(p):
     """file transforms: the C07 driver already compares header fields (nbits, nchans, fch1, foff, tsamp, tstart)"""
+    if p.get("kind") == "mjd":
+        return main_mjd(p)
     from . import c07
     q = dict(p)
     q.pop("check", None)
